@@ -47,6 +47,14 @@ def gen_count_array(rng, num_bins, num_patches, auto, sparsity=None, integer=Non
         k = int(rng.integers(num_patches))
         arr[:, k, :] = 0.0
         arr[:, :, k] = 0.0
+    if rng.random() < 0.25 and num_bins > 1:
+        # negative weights are legal: counts of mixed sign that cancel exactly across the bins
+        i, j = rng.integers(0, num_patches, 2)
+        vals = rng.integers(1, 9, num_bins - 1).astype(float) * rng.choice([-1.0, 1.0], num_bins - 1)
+        arr[:, i, j] = np.concatenate([vals, [-vals.sum()]])
+        if rng.random() < 0.5:
+            k, m = rng.integers(0, num_patches, 2)
+            arr[:, k, m] = -np.abs(arr[:, k, m])
     if auto:
         arr = np.triu(arr)
     return arr
